@@ -258,7 +258,7 @@ def l1d(ctx):
         if b.name in ("from_syntax", "to_syntax") and (b.impl_trait or "").split("::")[-1] == "Language":
             bodies.append((tests, b))
     nlang = len(bodies)
-    ctx.floor("generated from_syntax/to_syntax bodies in the test crate", nlang, 14)
+    ctx.floor("generated from_syntax/to_syntax bodies in the test crate", nlang, 8)
     for b in lib.fns():
         if b.name in ("from_syntax", "to_syntax") and (b.impl_trait or "").endswith("lang::LanguageChildren"):
             bodies.append((lib, b))
@@ -375,7 +375,7 @@ def l3(ctx):
     for b in crate.fns():
         if b.name == "fmt" and (b.impl_trait or "").endswith("fmt::Display") and (b.file or "").endswith("parse.rs"):
             disp[b.impl_self] = templates(crate, b)
-    ctx.floor("Display impls in parse.rs", len(disp), 3)
+    ctx.floor("Display impls in parse.rs", len(disp), 2)
     pat = [v for k, v in disp.items() if "pattern::Pattern" in k]
     mpd = [v for k, v in disp.items() if "MultiPattern" in k]
     if pat:
